@@ -28,6 +28,51 @@ SKELETONS = {
 }
 
 
+def build_ctor(skel, toppure, edges):
+    """same tree, but every job is created with required=<set object>, jobs
+    with equal requirement sets being given the very same object; only
+    possible when the edges allow a creation order; returns None otherwise"""
+    names = node_names(skel)
+    req = {n: set() for n in names}
+    for a, b in edges:
+        req[b].add(a)
+    kids_of = {}
+
+    def walk(d, parent):
+        for k, v in d.items():
+            kids_of.setdefault(parent, []).append(k)
+            if v is not None:
+                kids_of.setdefault(k, [])
+                walk(v, k)
+    walk(SKELETONS[skel], 'top')
+    # a node can be created once its requirements and (for a scheduler) its
+    # children exist
+    need = {n: set(req[n]) | set(kids_of.get(n, ())) for n in names}
+    order, done = [], set()
+    while len(order) < len(names):
+        ready = [n for n in names if n not in done and need[n] <= done]
+        if not ready:
+            return None
+        for n in ready:
+            done.add(n)
+            order.append(n)
+    objs, member, shared = {}, {}, {}
+    for h, n in enumerate(order, 1):
+        key = frozenset(req[n])
+        if key and key not in shared:
+            shared[key] = {objs[r] for r in key}
+        kw = {'required': shared[key]} if key else {}
+        if n in kids_of:
+            objs[n] = SSched(n, h, *[objs[k] for k in kids_of[n]], **kw)
+            member[n] = set(kids_of[n])
+        else:
+            objs[n] = SJob(n, h, **kw)
+    top = (SPure if toppure else SSched)(
+        'top', 0, *[objs[k] for k in kids_of['top']])
+    member['top'] = set(kids_of['top'])
+    return top, objs, member
+
+
 def build(skel, toppure, edges):
     objs = {}
     member = {}      # scheduler name -> set of member names
@@ -68,10 +113,16 @@ def reqs(objs):
     return {n: {r.vname for r in o.required} for n, o in objs.items()}
 
 
-def _one(skel, toppure, edges, res):
+def _one(skel, toppure, edges, res, ctor=False):
     rep = {'skeleton': skel, 'toppure': toppure,
-           'edges': [list(e) for e in edges]}
-    top, objs, member = build(skel, toppure, edges)
+           'edges': [list(e) for e in edges], 'ctor': ctor}
+    if ctor:
+        built = build_ctor(skel, toppure, edges)
+        if built is None:
+            return
+        top, objs, member = built
+    else:
+        top, objs, member = build(skel, toppure, edges)
     before = reqs(objs)
     msgs = []
     with seq.captured():
@@ -117,13 +168,15 @@ def _one(skel, toppure, edges, res):
             ':nested-clean' if ('returns' in m and not removed) else '')
         seq.add_violation(res, key, "%s | skeleton %s %s top=%s edges (a,b: b "
                           "requires a) %s" % (
-                              m, skel, SKELETONS[skel],
+                              m + (' [jobs created with shared required= set '
+                                   'objects]' if ctor else ''),
+                              skel, SKELETONS[skel],
                               'PureScheduler' if toppure else 'Scheduler',
                               sorted(edges)), rep)
 
 
-def one(skel, toppure, edges, res):
-    _, hang = seq.guarded(_one, skel, toppure, edges, res)
+def one(skel, toppure, edges, res, ctor=False):
+    _, hang = seq.guarded(_one, skel, toppure, edges, res, ctor)
     if hang:
         seq.add_violation(res, 'c16:hang', "%s | skeleton %s edges %s"
                           % (hang, skel, sorted(edges)),
@@ -142,6 +195,8 @@ def run_item(item):
         if res.get('abort'):
             break
         one(item['skel'], item['toppure'], edges, res)
+        if len(edges) >= 2:
+            one(item['skel'], item['toppure'], edges, res, ctor=True)
         n += 1
         if n == 1 and lo == 0 and item['r'] == 2 and not res['samples']:
             res['samples'].append({'skeleton': SKELETONS[item['skel']],
@@ -176,7 +231,8 @@ def items(tier, seed):
 
 def replay(rep):
     res = seq.new_result()
-    one(rep['skeleton'], rep['toppure'], [tuple(e) for e in rep['edges']], res)
+    one(rep['skeleton'], rep['toppure'], [tuple(e) for e in rep['edges']], res,
+        rep.get('ctor', False))
     return sorted(v['msg'] for v in res['violations'])
 
 
